@@ -894,9 +894,10 @@ func (r *stack) remove(idx int) (slice any, ok bool) {
 	r.lock()
 	defer r.unlock()
 
-	var found bool
+	// index reports the position it resolved even when the
+	// slice found there is nil: a nil slice is removable too.
 	var index int
-	if slice, index, found = r.index(idx); found {
+	if slice, index, _ = r.index(idx); index > 0 {
 		// note the len before we start
 		var u1 int = r.ulen()
 		var contents []any
@@ -920,9 +921,9 @@ func (r *stack) remove(idx int) (slice any, ok bool) {
 
 		*r = R
 
-		// make sure we succeeded both in non-nilness
-		// and in the expected integer length change.
-		ok = slice != nil && u1-1 == r.ulen()
+		// make sure we succeeded in the
+		// expected integer length change.
+		ok = u1-1 == r.ulen()
 	}
 
 	return
@@ -2477,7 +2478,8 @@ func (r *stack) pop() (slice any, ok bool) {
 		*r = (*r)[:idx]
 	}
 
-	ok = slice != nil
+	// a slice was removed, nil or not
+	ok = true
 
 	return
 }
